@@ -291,8 +291,15 @@ func vC05FindPropSlice(rv reflect.Value) (reflect.Value, bool) {
 	}
 	for i := 0; i < rv.NumField(); i++ {
 		f := rv.Field(i)
-		if f.Kind() == reflect.Slice && f.Type().Elem().Kind() == reflect.Ptr && f.Type().Elem().Elem().Kind() == reflect.Struct {
-			st := f.Type().Elem().Elem()
+		if f.Kind() != reflect.Slice {
+			continue
+		}
+		// a slice of property structs, held by pointer or by value
+		st := f.Type().Elem()
+		if st.Kind() == reflect.Ptr {
+			st = st.Elem()
+		}
+		if st.Kind() == reflect.Struct {
 			nStr, nIf := 0, 0
 			for j := 0; j < st.NumField(); j++ {
 				switch st.Field(j).Type.Kind() {
@@ -324,10 +331,13 @@ func vC05Props(a Amf0) (keys []string, vals []Amf0, ok bool) {
 	}
 	sl, found := vC05FindPropSlice(reflect.ValueOf(a).Elem())
 	if !found {
-		panic("harness: no property list found in " + reflect.TypeOf(a).String())
+		vAbort("no property list found in " + reflect.TypeOf(a).String())
 	}
 	for j := 0; j < sl.Len(); j++ {
-		e := sl.Index(j).Elem()
+		e := sl.Index(j)
+		if e.Kind() == reflect.Ptr {
+			e = e.Elem()
+		}
 		var key string
 		var val Amf0
 		for f := 0; f < e.NumField(); f++ {
